@@ -56,6 +56,11 @@ def cases(thorough):
                     yield {"block": "pair", "u1": u1, "u2": u2, "dt": dt, "shape": sh}
             for nvec in (1, 2, 3):
                 yield {"block": "vector", "u1": u1, "u2": u2, "nvec": nvec}
+            # Vectors whose components live in one array in another arrangement than (component, row): rows of a (3, N) array
+            # taken in another order, reversed and strided views, the components of a converted Vector exchanged or reversed
+            if u1 != u2:
+                for layout in ("rows-z-first", "reversed-views", "strided-views", "columns-of-N-by-3", "converted-then-reversed", "converted-then-exchanged"):
+                    yield {"block": "vector", "u1": u1, "u2": u2, "nvec": 3, "layout": layout}
         for u1, u2, u3 in itertools.product(us[:4], us, us[-3:]):
             yield {"block": "chain", "u1": u1, "u2": u2, "u3": u3}
     names = list(fams)
@@ -189,6 +194,23 @@ def run_case(acc, idx, c):
         n = c["nvec"]
         comps = [np.array([1.0, -2.0, 3.5]) * (i + 1) for i in range(n)]
         vec = V_(*comps, unit=c["u1"])
+        layout = c.get("layout")
+        if layout:
+            block = np.array([[1.0, -2.0, 3.5, 8.0], [2.5, 7.0, -1.0, 4.0], [6.0, 0.5, 9.0, -3.0]])
+            if layout == "rows-z-first":
+                vec = V_(block[2], block[1], block[0], unit=c["u1"])
+            elif layout == "reversed-views":
+                vec = V_(block[0][::-1], block[1][::-1], block[2][::-1], unit=c["u1"])
+            elif layout == "strided-views":
+                vec = V_(block[0][::2], block[1][1::2], block[2][::-2], unit=c["u1"])
+            elif layout == "columns-of-N-by-3":
+                nb3 = np.ascontiguousarray(block.T[:, :3])
+                vec = V_(nb3[:, 0], nb3[:, 1], nb3[:, 2], unit=c["u1"])
+            else:
+                # an intermediate unit of the same family: the components of the result of a conversion, rearranged
+                mid = V_(block[0].copy(), block[1].copy(), block[2].copy(), unit=c["u2"]).to(c["u1"])
+                vec = mid[::-1] if layout == "converted-then-reversed" else V_(x=mid.y, y=mid.z, z=mid.x)
+            comps = [np.array(cc.values, dtype=np.float64) for cc in vec._xyz.values()]
         bad = _arr.label_mismatch(vec.unit, c["u1"]) or _arr.label_mismatch(osyris.units(c["u2"]), c["u2"])
         if bad:
             acc.violation("C08:unit-string-read-as-another-unit:vector", idx, c, bad)
